@@ -11,7 +11,10 @@ LEVEL_TEXT = ("Proof + correspondence: Coq theorems that the one-level inlining 
               "multiset of resolved contours, same advances and anchors, relative order kept, skipped names gone) is an executable "
               "Coq predicate skip_ok evaluated with vm_compute on the real filter's before/after glyph sets and on "
               "OTFPreProcessor with/without skipping; the Gallina skip_glyph model is compared with the filter output glyph by "
-              "glyph. Compiled OTF/TTF with and without skipping are compared directly (order, cmap, hmtx, contour multisets).")
+              "glyph. Compiled OTF/TTF with and without skipping are compared directly (order, cmap, hmtx, contour multisets). Designspace "
+              "builds (list given by the designspace lib; by argument / UFO libs for compileInterpolatableTTFs) are observed: the "
+              "variable font built with skipping is instantiated at every source location -- including sparse layer masters that "
+              "only the skipped component has -- and each remaining glyph must render like in the build with nothing skipped.")
 LEVEL_NOTE = ("Trusted: Coq kernel, hand model of the filter pen (correspondence-tested), harness. The Permutation-of-contours "
               "statement is checked per case in Coq, not proved for all inputs. TrueType binaries are compared on order/cmap/"
               "hmtx only (composite vs inlined rounding differs inherently, DESIGN C13); generated kerning/marks on remaining "
@@ -19,7 +22,10 @@ LEVEL_NOTE = ("Trusted: Coq kernel, hand model of the filter pen (correspondence
 TECHNIQUE = "Coq theorem skip_absent + Coq-evaluated skip_ok predicate and skip_glyph model on real filter runs; direct binary comparison"
 IMPORTS = "From U2F Require Import Base.Prelude Geometry.Model Geometry.Cff Geometry.Filters."
 RULE = ("random component DAGs (depth <= 3-4, mirrored/nested references) x random skip subsets biased to glyphs used as bases "
-        "(thorough: every subset of fonts with <= 6 glyphs) given by argument or by public.skipExportGlyphs, both UFO libraries. "
+        "(thorough: every subset of fonts with <= 6 glyphs) given by argument or by public.skipExportGlyphs, both UFO libraries; "
+        "2-3 master families on axes whose default is the minimum / the maximum (other masters at negative normalised "
+        "coordinates) / in the middle, with a sparse layer master for the skipped component, list given by designspace lib, "
+        "argument or UFO libs. "
         "Non-trivial = some remaining glyph references a skipped glyph (directly or nested).")
 ASSUMPTIONS = ["IEEE doubles exact on dyadic inputs"]
 
